@@ -128,6 +128,33 @@ def refute_bounded(obligations, verbose=False, bound=3):
             print('  bounded refutation found for', ob.name)
 
 
+def _kill_descendants():
+    """SIGKILL every descendant process (solver pool workers and their children): an over-budget check must not leave stuck solvers behind."""
+    import signal
+    me = os.getpid()
+    children = {}
+    for d in os.listdir('/proc'):
+        if d.isdigit():
+            try:
+                with open('/proc/%s/stat' % d) as f:
+                    parts = f.read().rsplit(')', 1)[1].split()
+                children.setdefault(int(parts[1]), []).append(int(d))
+            except Exception:
+                pass
+    todo, seen = [me], set()
+    while todo:
+        p = todo.pop()
+        for c in children.get(p, []):
+            if c not in seen:
+                seen.add(c)
+                todo.append(c)
+    for c in seen:
+        try:
+            os.kill(c, signal.SIGKILL)
+        except OSError:
+            pass
+
+
 def main(argv=None):
     ap = argparse.ArgumentParser()
     ap.add_argument('prop')
@@ -145,6 +172,7 @@ def main(argv=None):
     def _expire():
         sys.stdout.write('UNDECIDED: property=%s check exceeded its time budget of %d s (a solver call did not return)\n' % (a.prop, budget))
         sys.stdout.flush()
+        _kill_descendants()
         os._exit(2)
     wd = threading.Timer(budget, _expire)
     wd.daemon = True
